@@ -1,5 +1,8 @@
 import G3D.Proofs.Construct
 import G3D.Proofs.Move2
+import G3D.Proofs.SortValid
+import G3D.Proofs.SortCycle
+import G3D.Proofs.Judge
 /-! # C09 — polygon / polyhedron construction is order-independent and canonical  (partial)
     Proved: what a successful construction guarantees (vertices ⊆ input, coplanar, centre = mean of the distinct input;
     polyhedron: every stored face oriented away from the centre, Euler's formula, centre = vertex mean, centre inside),
@@ -26,4 +29,36 @@ theorem polyhedron_construction (input : List Polygon) (B : Polyhedron) (h : Pol
 theorem polyhedron_centre_inside (input : List Polygon) (B : Polyhedron) (h : Polyhedron.mk? input = .ok B)
     (hc : ∀ f ∈ B.faces, f.plane.contains f.center = true) : B.contains B.center = true :=
   Polyhedron.center_inside input B h hc
+
+/-! ### kernel K6 — the angular sort of points in strictly convex position is the counter-clockwise cycle -/
+/-- **order independence**: whatever the order (and repetitions) of the input, if the distinct input points are in
+    strictly convex position (every point strictly exposed) and the construction succeeds, the polygon is Valid
+    (counter-clockwise convex cycle about its normal) and its vertices are exactly the distinct input points -/
+theorem polygon_valid_of_convex_position (input : List V3) (rev : Bool) (P : Polygon)
+    (h : Polygon.mk? input rev = .ok P) (hx : StrictConvexPos (dedupV input)) :
+    P.Valid ∧ List.Perm P.pts (dedupV input) :=
+  let ⟨h1, h2, _⟩ := Polygon.mk?_valid_of_strictConvex input rev P h hx
+  ⟨h1, h2⟩
+
+/-- … and the construction does succeed for distinct coplanar points in strictly convex position -/
+theorem polygon_construction_succeeds (input : List V3) (rev : Bool) (p0 p1 p2 : V3) (rest : List V3)
+    (hd : dedupV input = p0 :: p1 :: p2 :: rest) (hx : StrictConvexPos (dedupV input))
+    (hpl : ∀ p ∈ dedupV input, dot (cross (sub p1 p0) (sub p2 p0)) (sub p p0) = 0) :
+    ∃ P, Polygon.mk? input rev = .ok P ∧ P.Valid ∧ List.Perm P.pts (dedupV input) :=
+  Polygon.mk?_ok_of_strictConvex input rev p0 p1 p2 rest hd hx hpl
+
+/-- `-polygon`: same vertices (the cycle reversed after its first vertex), Valid about the reversed normal -/
+theorem neg_polygon (P : Polygon) (hv : P.Valid) :
+    ∃ Q q0 rest, P.pts = q0 :: rest ∧ P.neg? = .ok Q ∧ Q.Valid ∧ Q.pts = q0 :: rest.reverse ∧
+      Q.plane.p = q0 ∧ Q.center = meanV P.pts ∧ (∃ t : Rat, 0 < t ∧ Q.plane.n = smul t (neg P.plane.n)) :=
+  Polygon.neg?_of_valid P hv
+
+/-- `-(-p)` has p's vertex cycle and p's normal direction -/
+theorem neg_neg_polygon (P : Polygon) (hv : P.Valid) :
+    ∃ Q R, P.neg? = .ok Q ∧ Q.neg? = .ok R ∧ R.Valid ∧ R.pts = P.pts ∧ (∃ t : Rat, 0 < t ∧ R.plane.n = smul t P.plane.n) :=
+  Polygon.neg?_neg?_pts P hv
+
+/-- the judge the correspondence evaluates on implementation-built polygons decides exactly `Valid` -/
+theorem judge_decides_valid (P : Polygon) : P.validB = true ↔ P.Valid := Polygon.validB_iff P
+
 end G3D.Props.C09
